@@ -406,7 +406,12 @@ class Tr:
         if isinstance(e, ast.UnaryOp) and isinstance(e.op, ast.Not):
             return "(negb %s)" % self.cond(e.operand, env, hoist), ("bool",)
         if isinstance(e, ast.BoolOp):
-            parts = [self.cond(x, env, hoist) for x in e.values]
+            parts = [self.cond(e.values[0], env, hoist)]
+            for x in e.values[1:]:
+                later = []
+                parts.append(self.cond(x, env, later))
+                if later:     # Python short-circuits: an operand that may raise must not be evaluated before the first
+                    raise Unsupported("and/or whose later operand may raise (hoisting it would evaluate it unconditionally): " + ast.unparse(e))
             op = " && " if isinstance(e.op, ast.And) else " || "
             return "(" + op.join(parts) + ")", ("bool",)
         if isinstance(e, ast.Compare):
@@ -493,7 +498,9 @@ class Tr:
             return "(opt_list_truthy %s)" % v
         if t[0] == "list":
             return "(negb (is_nil %s))" % v
-        if t[0] == "opt":
+        if t[0] == "opt" and t[1][0] not in ("Z", "bool", "list", "dict", "set") and t[1] != ("dict",) and t[1] != ("set",):
+            # an optional OBJECT (opaque type): truthy iff not None.  Optional ints / bools / containers are refused:
+            # 0, False and empty containers are falsy too, `is_some` would be wrong for them
             return "(is_some %s)" % v
         raise Unsupported("truth value of a %s: %s" % (t, ast.unparse(e)))
 
